@@ -31,7 +31,7 @@ let nat_s s = nat_of_int (int_of_string s)
 let rec parse_ty (toks : string list) : ty * string list =
   match toks with
   | "B" :: r -> (TPrim PBool, r)
-  | "I" :: r -> (TPrim PInt, r)
+  | "I" :: r -> (TPrim PInteger, r)
   | "N" :: r -> (TPrim PNull, r)
   | "O" :: r -> (TPrim POctets, r)
   | "E" :: n :: r ->
